@@ -15,7 +15,9 @@
       MathML                    cellml:units (2.0 namespace) on elements below math -> the 1.x namespace
       encapsulation             <encapsulation> c_ref* </encapsulation> -> <group><relationship_ref relationship="encapsulation"/> c_ref* </group>
       connection                <connection component_1 component_2 id> mv* </connection> ->
-                                <connection><map_components component_1 component_2 cmeta:id/> mv* </connection>
+                                <connection><map_components component_1 component_2 cmeta:id/> mv* </connection>, with
+                                map_components at ANY position among the map_variables ([mcpos]); likewise relationship_ref
+                                among the component_ref children of a group ([rrpos])
       component-level units     when [hoist]: the units elements standing immediately before the first component
                                 element become the first children of that component
       resets                    do not exist in 1.x: not expressible;  imports exist only in 1.1. *)
@@ -56,8 +58,18 @@ Variable ist : list attr -> istyle.
 Variable cm : bool.
 Variable us : bool.
 Variable hoist : bool.
+(** child ORDER: the 1.x specifications fix no order among the children of a connection or of a group: map_components is
+    written after the first [mcpos] map_variables (at the end when there are fewer), relationship_ref after the first
+    [rrpos] component_ref elements *)
+Variable mcpos rrpos : nat.
 
 Definition V : string := vns v.
+
+Fixpoint insert_at {A : Type} (n : nat) (x : A) (l : list A) : list A :=
+  match n, l with
+  | S n', y :: r => y :: insert_at n' x r
+  | _, _ => x :: l
+  end.
 
 Definition conv_id (a : attr) : attr :=
   if cm && attr_is "id" a then mkAttr CMETA_1_0_NS "id" (a_val a) else a.
@@ -131,15 +143,15 @@ Definition relationship_ref : xml := Elem V "relationship_ref" [at_ "relationshi
 
 Definition conv_encapsulation (x : xml) : xml :=
   match x with
-  | Elem _ _ attrs ks => Elem V "group" (map conv_id attrs) (relationship_ref :: map conv_cref_kid ks)
+  | Elem _ _ attrs ks => Elem V "group" (map conv_id attrs) (insert_at rrpos relationship_ref (map conv_cref_kid ks))
   | _ => x
   end.
 
 Definition conv_connection (x : xml) : xml :=
   match x with
   | Elem _ nm attrs ks =>
-    Elem V nm [] (Elem V "map_components" (map conv_id attrs) []
-                  :: map (fun k => if is_cellml20 "map_variables" k then retag conv_id k else k) ks)
+    Elem V nm [] (insert_at mcpos (Elem V "map_components" (map conv_id attrs) [])
+                            (map (fun k => if is_cellml20 "map_variables" k then retag conv_id k else k) ks))
   | _ => x
   end.
 
